@@ -18,6 +18,7 @@ import (
 	"fmt"
 	"io/ioutil"
 	"net"
+	"net/http"
 	"os"
 	"os/exec"
 	"regexp"
@@ -45,6 +46,7 @@ type Op struct {
 	T  uint64 `json:"t,omitempty"`  // token identity
 	B  uint64 `json:"b,omitempty"`  // booking index
 	Dt int64  `json:"dt,omitempty"` // seconds
+	H  int    `json:"h,omitempty"`  // e2e: header profile of the upgrade request (0 = whatever is next in turn)
 }
 
 type Out struct {
@@ -68,7 +70,9 @@ type Case struct {
 	Discard string  `json:"discard,omitempty"`
 }
 
-var bookings = []string{"", "bk-A", "bk-B", "bk-C", "bk-S"}
+// booking ids as they come out of manifests and here-docs: look-alikes that differ only in surrounding
+// white space are DIFFERENT bookings for every layer (store, deny list, tokens)
+var bookings = []string{"", "bk-A", "bk-A ", " bk-C\n", "bk-S"}
 
 func (o Op) coq() string {
 	switch o.K {
@@ -80,6 +84,8 @@ func (o Op) coq() string {
 		return lib.App("Purge", lib.N(o.B))
 	case "Tick":
 		return lib.App("Tick", lib.Z(o.Dt))
+	case "Shell": // presented under another connection type: refused before the store is asked - nothing happens
+		return lib.App("Tick", lib.Z(0))
 	}
 	return o.K
 }
@@ -265,7 +271,7 @@ func runSeq(c *Case) {
 // call ExchangeCode as nearly together as the machine allows; repeated for several rounds (fresh store
 // each). Reported: the number of winners if all rounds agree, otherwise the round that disagrees most.
 func runRace(c *Case) {
-	rounds := 12
+	rounds := 8
 	lo, hi := 1<<30, -1
 	for k := 0; k < rounds; k++ {
 		w := raceOnce(c)
@@ -298,9 +304,9 @@ func raceOnce(c *Case) int {
 		go func() {
 			defer wg.Done()
 			atomic.AddInt32(&ready, 1)
-			for atomic.LoadInt32(&start) == 0 {
-				if c.N >= procs {
-					runtime.Gosched() // more presenters than processors: yield instead of starving the releaser
+			for spins := 0; atomic.LoadInt32(&start) == 0; spins++ {
+				if c.N >= procs || spins > 5000 {
+					runtime.Gosched() // more presenters than free processors (or a loaded machine): yield instead of starving the releaser
 				}
 			}
 			if _, err := s.cs.ExchangeCode(code); err == nil {
@@ -508,13 +514,19 @@ func histString(ops []Op) string {
 		case "Submit":
 			xs = append(xs, fmt.Sprintf("Submit->#%d(booking %d)", o.C, o.B))
 		case "Exchange":
-			xs = append(xs, fmt.Sprintf("Exchange #%d", o.C))
+			if o.H == 9 || o.H == 10 {
+				xs = append(xs, fmt.Sprintf("Exchange #%d (upgrade request carries a stale X-Request-Start)", o.C))
+			} else {
+				xs = append(xs, fmt.Sprintf("Exchange #%d", o.C))
+			}
 		case "Purge":
 			xs = append(xs, fmt.Sprintf("Purge booking %d", o.B))
 		case "Tick":
 			xs = append(xs, fmt.Sprintf("Tick %ds", o.Dt))
 		case "Wrong":
 			xs = append(xs, fmt.Sprintf("Present #%d on another topic's path", o.C))
+		case "Shell":
+			xs = append(xs, fmt.Sprintf("Present #%d under /shell/", o.C))
 		default:
 			xs = append(xs, o.K)
 		}
@@ -562,6 +574,7 @@ func oracleRace(c Case, idx int, res *lib.Result) {
 
 // ---------------------------------------------------------------- end to end on a real relay
 type e2e struct {
+	stale  time.Duration // > 0: the relay has a short code lifetime; stale X-Request-Start headers name a moment before expiry
 	rl     *lib.Relay
 	adm    string
 	keep   []*websocket.Conn
@@ -573,7 +586,17 @@ func (e *e2e) hold(c *websocket.Conn) { e.keepMu.Lock(); e.keep = append(e.keep,
 // admitted dials uri and tells whether the connection got onto the topic: the legitimate peer
 // keeps sending probes, an admitted reader sees one of them.
 func (e *e2e) admitted(uri string, peer *websocket.Conn, peerMu *sync.Mutex, tag string) bool {
-	conn, _, err := lib.Dial(uri, nil)
+	return e.admittedH(uri, peer, peerMu, tag, 0)
+}
+
+func (e *e2e) admittedH(uri string, peer *websocket.Conn, peerMu *sync.Mutex, tag string, profile int) bool {
+	k := int(atomic.AddInt32(&headerTurn, 1))
+	if profile > 0 {
+		k = profile
+	} else if e.stale > 0 && k%2 == 0 {
+		k = 9 + (k/2)%2 // on the short-lived store every other presentation claims to have arrived earlier
+	}
+	conn, _, err := lib.Dial(uri, upgradeHeaders(k, e.stale+2500*time.Millisecond))
 	if err != nil {
 		return false
 	}
@@ -600,11 +623,67 @@ func (e *e2e) admitted(uri string, peer *websocket.Conn, peerMu *sync.Mutex, tag
 }
 
 // bidFor makes booking names private to a case: all e2e cases share one relay and its deny list
-func bidFor(topic string, b uint64) string { return bookings[b] + "-" + topic }
+func bidFor(topic string, b uint64) string {
+	switch b {
+	case 2:
+		return "bk-B-" + topic + "\n" // trailing newline
+	case 3:
+		return " bk-C-" + topic + " " // blanks around
+	}
+	return bookings[b] + "-" + topic
+}
+
+// header profiles for websocket upgrades: what proxies and odd clients put on a request. None of them
+// may change what the relay does with a code.
+func upgradeHeaders(k int, staleBy time.Duration) http.Header {
+	h := http.Header{}
+	now := time.Now()
+	switch k % 14 {
+	case 1:
+		h.Set("X-Forwarded-For", "203.0.113.7")
+	case 2:
+		h.Set("X-Forwarded-For", "203.0.113.7, 10.0.0.1")
+	case 3:
+		h.Set("X-Forwarded-For", "203.0.113.7:4711")
+	case 4:
+		h.Set("X-Forwarded-For", "[2001:db8::7]:443")
+	case 5:
+		h.Set("X-Forwarded-For", "[2001:db8::7")
+	case 6:
+		h.Set("X-Forwarded-For", strings.Repeat("9", 4096))
+		h.Set("X-Real-Ip", "")
+	case 7:
+		h.Set("X-Real-Ip", "198.51.100.9")
+		h.Set("Forwarded", "for=198.51.100.9;proto=https")
+	case 8:
+		h.Set("X-Request-Id", "req-1")
+		h.Set("X-Correlation-Id", "req-1")
+		h.Set("Traceparent", "00-0af7651916cd43dd8448eb211c80319c-b7ad6b7169203331-01")
+	case 9: // the proxy says the request arrived a while ago (lagging clock, queueing - or a forged header)
+		t := now.Add(-staleBy)
+		h.Set("X-Request-Start", fmt.Sprintf("t=%d.%03d", t.Unix(), t.Nanosecond()/1e6))
+	case 10:
+		h.Set("X-Request-Start", strconv.FormatInt(now.Add(-staleBy).UnixNano()/1e6, 10))
+	case 11:
+		h.Set("X-Request-Start", fmt.Sprintf("t=%d.000", now.Add(time.Hour).Unix()))
+	case 12:
+		h.Set("X-Request-Start", "yesterday")
+	case 13:
+		h.Add("X-Forwarded-For", "2001:db8::7")
+		h.Add("X-Forwarded-For", "192.0.2.1")
+	}
+	return h
+}
+
+var headerTurn int32
 
 func (e *e2e) session(topic, bid string) (string, bool) {
 	now := time.Now().Unix()
-	cl := e.rl.Claims(topic, bid, []string{"read", "write"}, now-1, now-1, now+300)
+	exp := now + 300
+	if atomic.AddInt32(&headerTurn, 1)%2 == 0 {
+		exp = now + 200 // tokens of one booking need not expire together
+	}
+	cl := e.rl.Claims(topic, bid, []string{"read", "write"}, now-1, now-1, exp)
 	st, uri, code := e.rl.Session(topic, lib.Sign(cl, e.rl.Secret))
 	if st != 200 || code == "" {
 		return "", false
@@ -658,6 +737,9 @@ func genE2E(r *lib.Rng) Case {
 		case x < 8:
 			if len(issued) > 0 {
 				k := issued[r.Intn(len(issued))]
+				if r.Chance(1, 5) {
+					c.Ops = append(c.Ops, Op{K: "Shell", C: k}) // not a session path: the code is not even looked at
+				}
 				if r.Chance(1, 3) {
 					c.Ops = append(c.Ops, Op{K: "Wrong", C: k, T: uint64(r.Intn(3))})
 					if r.Bool() {
@@ -711,6 +793,14 @@ func (e *e2e) runE2E(c *Case, topic string) error {
 			}
 			uris[o.C] = uri
 			c.Outs = append(c.Outs, Out{K: "C", C: o.C})
+		case "Shell":
+			c.Outs = append(c.Outs, Out{K: "U"})
+			if u := wrongPath(uris[o.C], topic, 3); u != "" {
+				if conn, _, err := lib.Dial(u, upgradeHeaders(int(atomic.AddInt32(&headerTurn, 1)), time.Second)); err == nil {
+					e.hold(conn)
+					conn.Close()
+				}
+			}
 		case "Wrong":
 			// the same code on the path of another topic: never let in, and the code is spent
 			c.Outs = append(c.Outs, Out{K: "R"})
@@ -724,7 +814,7 @@ func (e *e2e) runE2E(c *Case, topic string) error {
 				}
 			}
 		case "Exchange":
-			if e.admitted(uris[o.C], peer, &pm, fmt.Sprintf("%s-%d", topic, i)) {
+			if e.admittedH(uris[o.C], peer, &pm, fmt.Sprintf("%s-%d", topic, i), o.H) {
 				var tb uint64
 				for _, p := range c.Ops {
 					if p.K == "Submit" && p.C == o.C {
@@ -752,13 +842,16 @@ func wrongPath(uri, topic string, variant uint64) string {
 		return ""
 	}
 	var other string
-	switch variant % 3 {
+	switch variant % 4 {
 	case 0:
 		other = "other-" + topic
 	case 1:
 		other = topic + "x"
 	default:
 		other = topic + "/sub"
+	}
+	if variant == 3 {
+		return strings.Replace(uri, "/session/"+topic+"?", "/shell/"+topic+"?", 1)
 	}
 	return strings.Replace(uri, "/session/"+topic+"?", "/session/"+other+"?", 1)
 }
@@ -978,7 +1071,9 @@ func startRelayTTL(ttl int64) *lib.Relay {
 		Wg:        &sync.WaitGroup{},
 		HTTP:      lib.NewHTTPClient(),
 	}
-	cs := ttlcode.NewDefaultCodeStore().WithTTL(ttl)
+	cs := ttlcode.NewDefaultCodeStore()
+	time.Sleep(2 * time.Millisecond) // the sweeper keeps its default period: expired codes stay unswept during a case
+	cs.WithTTL(ttl)
 	ds := deny.New()
 	hub := crossbar.New()
 	denied := make(chan string, 64)
@@ -1017,6 +1112,10 @@ func childE2E(inPath, outPath string) {
 		rl = lib.StartRelay(lib.RelayOpts{})
 	}
 	e := &e2e{rl: rl, adm: rl.AdminBearer("relay:admin")}
+	if f.TTL > 0 {
+		e.stale = 100 * time.Millisecond
+		log.SetLevel(log.TraceLevel) // output stays discarded: the relay must behave the same at every log level
+	}
 	sem := make(chan struct{}, 6)
 	var wg sync.WaitGroup
 	var mu sync.Mutex
@@ -1503,7 +1602,9 @@ func main() {
 			{{K: "Submit", C: 1, T: 1, B: 1}, {K: "Wrong", C: 1, T: 0}, {K: "Exchange", C: 1}},
 			{{K: "Submit", C: 1, T: 1, B: 1}, {K: "Tick", Dt: 1}, {K: "Wrong", C: 1, T: 1}, {K: "Tick", Dt: 1}, {K: "Wrong", C: 1, T: 0},
 				{K: "Tick", Dt: 1}, {K: "Wrong", C: 1, T: 2}, {K: "Tick", Dt: 1}, {K: "Exchange", C: 1}},
-			{{K: "Submit", C: 1, T: 1, B: 1}, {K: "Submit", C: 2, T: 1, B: 2}, {K: "Tick", Dt: 2}, {K: "Exchange", C: 2}, {K: "Tick", Dt: 1}, {K: "Exchange", C: 1}},
+			{{K: "Submit", C: 1, T: 1, B: 1}, {K: "Submit", C: 2, T: 1, B: 2}, {K: "Tick", Dt: 2}, {K: "Exchange", C: 2}, {K: "Tick", Dt: 1}, {K: "Exchange", C: 1, H: 9}},
+			// expired but not yet swept, and the upgrade request claims (X-Request-Start) to have arrived while the code was alive
+			{{K: "Submit", C: 1, T: 1, B: 3}, {K: "Submit", C: 2, T: 1, B: 2}, {K: "Tick", Dt: 3}, {K: "Exchange", C: 1, H: 10}, {K: "Exchange", C: 2, H: 9}},
 			{{K: "Submit", C: 1, T: 1, B: 1}, {K: "Submit", C: 2, T: 1, B: 1}, {K: "Tick", Dt: 1}, {K: "Wrong", C: 1, T: 2}, {K: "Exchange", C: 2},
 				{K: "Tick", Dt: 2}, {K: "Wrong", C: 1, T: 0}, {K: "Exchange", C: 1}},
 		}
